@@ -16,3 +16,7 @@ def run(ctx):
     ctx.assumptions.append("replies are produced through the in-memory result callback (MemWaiterServerProtocol); binary/text framing of replies (late-reply filter) is C18/C14 territory")
     ctx.cov["rule"] = ("seeded sequences on 3 connections ending in an adaptive drain; monitor: per (connection, RequestId) exactly one terminal reply after the drain, "
                        "≤ 1 EXPRIED and only under a RequestId that set a hold's terms, reply delivered to the issuing connection")
+
+
+def replay(path):
+    return engine_common.replay_engine("C03", path)
